@@ -330,7 +330,7 @@ class Gen:
         self.r = random.Random(seed)
         self.f = set(features) if features is not None else {
             'str', 'int', 'bool', 'enum', 'hook', 'loop', 'case', 'opt', 'try', 'foreach', 'if', 'wait', 'finish',
-            'regex', 'stri', 'appendc', 'setstr', 'delete', 'idx', 'condact', 'greedy'}
+            'regex', 'stri', 'appendc', 'setstr', 'delete', 'idx', 'condact', 'greedy', 'idiom'}
         self.alpha = list(alphabet)
         self.maxdepth = maxdepth
         self.maxstmts = maxstmts
@@ -476,7 +476,7 @@ class Gen:
         return {'k': 'bin', 'op': r.choice(['==', '!=', '<', '>', '<=', '>=']), 'l': self.int_expr(allow_last, 1), 'r': self.int_atom(False)}
 
     # ---- actions
-    def action(self, allow_last=True, in_loop=False, allow_cond=True):
+    def action(self, allow_last=True, in_loop=False, allow_cond=2):
         r = self.r
         c = []
         if self.hooks:
@@ -506,8 +506,11 @@ class Gen:
             c += [lambda: {'t': 'yield', 'code': r.choice(self.ycodes)}] * 2
         if allow_cond and 'condact' in self.f and 'if' in self.f:
             def mk():
-                br = [{'c': self.cond_expr(allow_last), 'b': [self.action(allow_last, in_loop, False) for _ in range(r.randint(1, 2))]}]
-                els = [self.action(allow_last, in_loop, False)] if r.random() < 0.4 else None
+                nxt = int(allow_cond) - 1
+                br = [{'c': self.cond_expr(allow_last), 'b': [self.action(allow_last, in_loop, nxt) for _ in range(r.randint(1, 2))]}]
+                if r.random() < 0.25:
+                    br.append({'c': self.cond_expr(allow_last), 'b': [self.action(allow_last, in_loop, nxt)]})
+                els = [self.action(allow_last, in_loop, nxt)] if r.random() < 0.4 else None
                 return {'t': 'if', 'br': br, 'els': els}
             c.append(mk)
         if not c:
@@ -521,9 +524,18 @@ class Gen:
         out = []
         for i in range(n):
             first = (i == 0 and must_match_first)
+            if 'idiom' in self.f and depth <= 1 and r.random() < 0.22:
+                ss = self.idiom(depth, in_loop)
+                if ss:
+                    out.extend(ss)
+                    continue
             s = self.stmt(depth, in_loop, first, allow_end=allow_end and i == n - 1)
             if s is not None:
                 out.append(s)
+                if s['t'] == 'loop' and r.random() < 0.45:
+                    a = self.action(False, in_loop, 1)
+                    if a is not None and a['t'] not in ('break',):
+                        out.append(a)
         if must_match_first and (not out or out[0]['t'] not in ('match', 'append', 'case', 'wait', 'foreach', 'loop', 'try')):
             out.insert(0, {'t': 'match', 'm': {'k': 'str', 'bytes': self.lit(1)}})
         return out
@@ -558,6 +570,10 @@ class Gen:
             if r.random() < 0.85:
                 b.append(r.choice([
                     {'t': 'if', 'br': [{'c': self.cond_expr(True), 'b': [{'t': 'break', 'loop': None}]}], 'els': None},
+                    {'t': 'if', 'br': [{'c': self.cond_expr(True), 'b': [{'t': 'break', 'loop': None}]}], 'els': None},
+                    {'t': 'if', 'br': [{'c': self.cond_expr(True), 'b': [
+                        {'t': 'if', 'br': [{'c': self.cond_expr(True), 'b': [{'t': 'break', 'loop': None}]}], 'els': None}] +
+                        ([self.action(True, False, 0)] if self.ints or self.hooks else [])}], 'els': None},
                     {'t': 'case', 'greedy': False, 'cl': [{'ps': [{'k': 'str', 'bytes': self.lit(1)}], 'prio': 0, 'b': [{'t': 'break', 'loop': None}]},
                                                            {'ps': ['else'], 'prio': 0, 'b': []}]},
                 ]))
@@ -570,7 +586,7 @@ class Gen:
             h = self.block(depth + 1, in_loop, must_match_first=r.random() < 0.6, minlen=0) if r.random() < 0.85 else []
             return {'t': 'try', 'b': self.block(depth + 1, in_loop), 'handles': handles, 'h': h}
         if k < 0.65 and 'foreach' in f:
-            acts = [a for a in (self.action(True, False, True) for _ in range(r.randint(1, 2))) if a is not None and a['t'] not in ('finish', 'yield', 'break')]
+            acts = [a for a in (self.action(True, False, 1) for _ in range(r.randint(1, 2))) if a is not None and a['t'] not in ('finish', 'yield', 'break')]
             if acts:
                 return {'t': 'foreach', 'b': [{'t': 'match', 'm': self.match()}] + ([{'t': 'match', 'm': self.match()}] if r.random() < 0.3 else []), 'acts': acts}
         if k < 0.8 and 'if' in f:
@@ -578,6 +594,81 @@ class Gen:
             els = self.block(depth + 1, in_loop, must_match_first=r.random() < 0.7) if r.random() < 0.5 else None
             return {'t': 'if', 'br': br, 'els': els}
         return {'t': 'match', 'm': self.match()}
+
+    # ---- idioms: shapes real nmfu programs are built from (bracket counters, accumulate-until-delimiter, number parsing)
+    def idiom(self, depth, in_loop):
+        r = self.r
+        A = self.alpha
+        cands = []
+        ints = [o for o in self.ints]
+        strs = [o for o in self.strs]
+
+        def cls(bs):
+            return {'k': 're', 'r': {'k': 'set', 'inv': False, 'items': [['ch', b] for b in bs]}, 'bin': False}
+
+        def lasteq(b):
+            return {'k': 'bin', 'op': '==', 'l': {'k': 'last'}, 'r': {'k': 'chr', 'c': b}}
+
+        def accumulate():
+            # loop { /[set]/; if $last == delim { break; } buf += [$last]; }  [after-break action]  "lit";
+            bs = r.sample(A, min(len(A), r.randint(2, 4)))
+            delim = bs[0]
+            body = [{'t': 'match', 'm': cls(bs)}, {'t': 'if', 'br': [{'c': lasteq(delim), 'b': [{'t': 'break', 'loop': None}]}], 'els': None}]
+            if strs:
+                body.append({'t': 'appendc', 'var': r.choice(strs)['name'], 'e': {'k': 'last'}})
+            elif ints:
+                body.append({'t': 'set', 'var': ints[0]['name'], 'e': {'k': 'bin', 'op': '+', 'l': {'k': 'var', 'name': ints[0]['name']}, 'r': {'k': 'num', 'v': 1}}})
+            out = [{'t': 'loop', 'name': None, 'b': body}]
+            if strs and r.random() < 0.6:
+                out.append({'t': 'appendc', 'var': r.choice(strs)['name'], 'e': {'k': 'num', 'v': r.choice(A)}})
+            elif self.hooks and r.random() < 0.5:
+                out.append({'t': 'hook', 'n': r.choice(self.hooks)})
+            out.append({'t': 'match', 'm': {'k': 'str', 'bytes': self.lit()}})
+            return out
+
+        def brackets():
+            # nested conditional break: depth counter
+            if not ints:
+                return None
+            n = ints[0]['name']
+            op, cl = r.sample(A, 2)
+            others = [b for b in A if b not in (op, cl)][:2]
+            v = {'k': 'var', 'name': n}
+            body = [{'t': 'match', 'm': cls([op, cl] + others)},
+                    {'t': 'if', 'br': [
+                        {'c': lasteq(op), 'b': [{'t': 'set', 'var': n, 'e': {'k': 'bin', 'op': '+', 'l': v, 'r': {'k': 'num', 'v': 1}}}]},
+                        {'c': lasteq(cl), 'b': [
+                            {'t': 'if', 'br': [{'c': {'k': 'bin', 'op': '==', 'l': v, 'r': {'k': 'num', 'v': 0}}, 'b': [{'t': 'break', 'loop': None}]}], 'els': None},
+                            {'t': 'set', 'var': n, 'e': {'k': 'bin', 'op': '-', 'l': v, 'r': {'k': 'num', 'v': 1}}}]}], 'els': None}]
+            return [{'t': 'set', 'var': n, 'e': {'k': 'num', 'v': 0}}, {'t': 'match', 'm': {'k': 'str', 'bytes': [op]}},
+                    {'t': 'loop', 'name': None, 'b': body}, {'t': 'match', 'm': {'k': 'str', 'bytes': self.lit()}}]
+
+        def number():
+            if not ints:
+                return None
+            n = ints[0]['name']
+            v = {'k': 'var', 'name': n}
+            out = [{'t': 'set', 'var': n, 'e': {'k': 'num', 'v': 0}},
+                   {'t': 'foreach', 'b': [{'t': 'match', 'm': {'k': 're', 'r': {'k': 'plus', 'c': {'k': 'cc', 'n': 'd'}}, 'bin': False}}],
+                    'acts': [{'t': 'set', 'var': n, 'e': {'k': 'bin', 'op': '+', 'l': {'k': 'bin', 'op': '*', 'l': v, 'r': {'k': 'num', 'v': 10}},
+                                                          'r': {'k': 'bin', 'op': '-', 'l': {'k': 'last'}, 'r': {'k': 'chr', 'c': 48}}}}]},
+                   {'t': 'match', 'm': {'k': 'str', 'bytes': [r.choice(A)]}}]
+            if r.random() < 0.6:
+                out.append({'t': 'if', 'br': [{'c': {'k': 'bin', 'op': r.choice(['>', '<', '==']), 'l': v, 'r': {'k': 'num', 'v': r.choice([0, 3, 12, 100])}},
+                                               'b': self.block(depth + 1, in_loop, must_match_first=r.random() < 0.5)}], 'els': None})
+            return out
+
+        def capture():
+            if not strs:
+                return None
+            sv = r.choice(strs)['name']
+            h = [{'t': 'wait', 'm': {'k': 'str', 'bytes': [r.choice(A)]}}] if r.random() < 0.5 else [{'t': 'delete', 'var': sv}, {'t': 'match', 'm': {'k': 'str', 'bytes': self.lit(1)}}]
+            return [{'t': 'try', 'b': [{'t': 'append', 'var': sv, 'm': {'k': 're', 'r': {'k': 'plus', 'c': {'k': 'set', 'inv': False, 'items': [['ch', b] for b in r.sample(A, 3)]}}, 'bin': False}},
+                                       {'t': 'match', 'm': {'k': 'str', 'bytes': [r.choice(A)]}}], 'handles': ['outofspace'], 'h': h}]
+        for f in (accumulate, accumulate, brackets, number, capture):
+            cands.append(f)
+        res = r.choice(cands)()
+        return res
 
     def case(self, depth, in_loop):
         r = self.r
